@@ -121,9 +121,7 @@ theorem parseLabel_ne_fuel (r : Bytes) : parseLabel r ≠ .outOfFuel := by
 theorem parseLabelSst_ne_fuel (env : Env) (r : Bytes) : parseLabelSst env r ≠ .outOfFuel := by
   unfold parseLabelSst; split
   · simp
-  · split
-    · split <;> simp
-    · simp
+  · split <;> simp
 theorem parseDimensions_ne_fuel (r : Bytes) : parseDimensions r ≠ .outOfFuel := by
   unfold parseDimensions
   split
